@@ -411,7 +411,15 @@ class PipeWorld:
         self.factories = self.eng.factories(order)
         self.pending = None
         self.rev_n = 0
-        scan.for_factories = lambda ae, pkg: (self.commit_update(), self.factories)[1]
+
+        def for_factories(ae, pkg):
+            # the real scanner imports the engine's packages (FSM._pipeline forgets them right before, scan.reset);
+            # the in-memory stand-in puts its modules back the same way
+            self.commit_update()
+            self.eng.install()
+            return self.factories
+
+        scan.for_factories = for_factories
         nt = ch.choose('gen.ntargets', 5)
         pool = list(TARGET_POOL)
         self.targets0 = [pool.pop(ch.choose('gen.target', len(pool))) for _ in range(nt)]
@@ -955,6 +963,7 @@ class PipeWorld:
         after, qa = self.snap()
         status = {True: 'success', False: 'failure', None: 'invalid'}[msg.success]
         G.replies += 1
+        self.probes['reply_judged'] += 1
         if stale:
             # result of work released before the last (re)load: the statement promises nothing for it (the pipeline
             # records and propagates it when the job happens to be queued, which G mirrors below), but it must not
@@ -1280,16 +1289,16 @@ class PipeWorld:
             self.sim.run(max_steps=self.sim.steps + 60, max_time=self.sim.now + 11.0)
             if G.released_total != rel and G.idle():
                 pass
-        elif r == 'time':
+        else:
+            # out of virtual time or out of steps (a pipeline spinning on something): both are 'no quiescence'
+            self.probes['tail_budget_' + str(r)] += 1
             stuck = {a: sorted(t) for a, t in G.must.items() if t}
             for a, ts in stuck.items():
                 for t in ts:
                     self.also_owed(a, t, 'never released although the pipeline has nothing else to do')
             self.violate('C04', 'no_quiescence', 'must_outstanding' if stuck else 'inflight',
                          f'after the last event, with workers answering everything, still owed {stuck} '
-                         f'in flight {dict(G.inflight)} after {ticks} dispatch periods; que={[j.tag for j in schedule.que]}')
-        else:
-            self.probes['tail_budget_' + r] += 1
+                         f'in flight {dict(G.inflight)} after {ticks} dispatch periods ({r} budget); que={[j.tag for j in schedule.que]}')
 
     # -- C04: every waiter on 'queue empty' / 'nothing executing' / 'crew idle' is eventually satisfied ------------
     POLL_SCALE = 10.0  # the waiters poll every 0.2 s; here every 2 s of virtual time (fewer steps, same logic)
